@@ -45,11 +45,51 @@ class Survival:
             cls = 'daemon_failed_to_start'
             sig = {'exception': node.start_error[0]}
         self.w.violation(self.prop, cls, sig, detail)
-        if cls == 'installed_but_untracked_after_refused_delsa':
-            # recorded (known finding F17) and excused, so that the rest of the run is still judged
-            self.excused.setdefault(node.name, set()).update(extra)
-            return
         if self.poison:
+            self.w.poisoned = True
+
+
+class Wedge:
+    """C17 'keeps serving': an iteration that had nothing to read (a pure timer tick) has no input to blame an error on; when several
+    consecutive idle ticks of a node all end in the loop's catch-all with the same error, the timer sweeps are not running any more
+    (everything after the failing statement - DPD, rekey, retransmission of every other IKE_SA - is skipped in every iteration)."""
+    N = 6
+
+    def __init__(self, world, prop='C17'):
+        self.w = world
+        self.prop = prop
+        self.run_len = {}
+        self.step_errors = {}
+        self.reported = set()
+        world.monitors.append(self)
+
+    def before_step(self, node, cause):
+        self.step_errors[node.name] = []
+
+    def on_log(self, node, level, msg):
+        if level >= 40 and msg.startswith('Error while processing an event'):
+            self.step_errors.setdefault(node.name, []).append(msg)
+
+    def after_step(self, node, cause):
+        ck = cause[0] if isinstance(cause, tuple) else cause
+        errs = self.step_errors.get(node.name, [])
+        if ck != 'tick':
+            if not errs:
+                self.run_len[node.name] = (None, 0)
+            return
+        if not errs:
+            self.run_len[node.name] = (None, 0)
+            return
+        text = errs[-1][:200]
+        last, n = self.run_len.get(node.name, (None, 0))
+        n = n + 1 if last == text else 1
+        self.run_len[node.name] = (text, n)
+        if n >= self.N and (node.name, node.incarnation) not in self.reported:
+            self.reported.add((node.name, node.incarnation))
+            exc = text.split('Omitting it: ')[-1].split('(')[0]
+            self.w.violation(self.prop, 'event_loop_wedged', {'exception': exc},
+                             f'{node.name}: {n} consecutive idle timer ticks all ended in the catch-all with the same error ({text}); the timer '
+                             f'sweeps no longer run to completion. table: {[(sa.state.name, len(sa.child_sas)) for sa in node.ike_sas()]}')
             self.w.poisoned = True
 
 
